@@ -21,6 +21,9 @@ def main():
     except ValueError:
         seed = 0
     os.environ.setdefault("PYTHONHASHSEED", "0")
+    import logging
+
+    logging.disable(logging.CRITICAL)  # aioquic logs peer errors through the lastResort handler
 
     from . import build, core
 
